@@ -445,7 +445,11 @@ def pair_monitor(task):
         try:
             with warnings.catch_warnings():
                 warnings.simplefilter("ignore")
-                base = scen.build(scn); base.run()
+                base = scen.build(scn)
+                tie = _watch_ties(base, scn)
+                base.run()
+                if tie[0]:
+                    continue            # the property excludes schedulers whose decisions hinge on ties (stable sort keeps input order)
                 A = _outputs(base)
                 for variant, kw in pair_variants(scn, r):
                     evals += 1
@@ -486,6 +490,25 @@ def pair_monitor(task):
                       f"up to 3 station permutations, 2 constraint permutations, 2 session permutations and shifts k in {{1, 3}} (k = 6 when the pre-event recompute grid matters); "
                       f"{len(fresh_jobs)} scenarios re-run in a fresh interpreter",
                 evaluations=evals, distinct_nontrivial=len(distinct), violations=viol, wall_s=round(time.time() - t0, 2))
+
+
+def _watch_ties(sim, scn):
+    """flag[0] becomes True if the priority keys of the sessions handed to the sort function are not pairwise distinct at some invocation"""
+    flag = [False]
+    sch = sim.scheduler
+    if scn["scheduler"]["kind"] not in ("sorted", "rr"):
+        return flag
+    from .algomon import _keys
+    orig = sch._sort_fn
+    sort = scn["scheduler"]["sort"]
+
+    def watched(evs, iface):
+        keys, _ = _keys(sort, list(evs), iface)
+        if len(set(round(float(k), 9) for k in keys)) != len(keys):
+            flag[0] = True
+        return orig(evs, iface)
+    sch._sort_fn = watched
+    return flag
 
 
 def pair_variants(scn, r):
